@@ -2,6 +2,8 @@
 from props.binary import *     # noqa
 from props.end import *        # noqa
 
+from props.plan import merge_plan_harness      # noqa: E402
+
 META = {
     'explanation': 'zip: the real Zip over the real binary Start / SideReceiver code with stub network receivers, every '
                    'interleaving of the two inputs: exactly min(|a|,|b|) pairs per iteration, i-th with i-th, no '
@@ -17,4 +19,6 @@ META = {
 def TASKS(tier):
     fan_out = [t for t in end_tasks(tier, 'fan_out', ('routing',))
                if t.params['strategy'] == 'All' or len(t.params['blocks']) > 1]
-    return zip_tasks(tier, 'zip') + fan_out + route_tasks(tier, 'route') + merge_tasks(tier, 'merge')
+    from props.plan import merge_plan_tasks
+    return zip_tasks(tier, 'zip') + fan_out + route_tasks(tier, 'route') + merge_tasks(tier, 'merge') + \
+        merge_plan_tasks(tier, 'merge_plan')
